@@ -124,6 +124,23 @@ for _k in ('C01', 'C02', 'C03', 'C04', 'C05', 'C10', 'C13', 'C15'):
 for _k in ('C01', 'C02', 'C03', 'C04', 'C05', 'C07', 'C10', 'C11', 'C13', 'C14', 'C15'):
     PROPS[_k]['tie_defs'] = PROPS[_k].get('tie_defs', []) + [r'^DB\.']
     PROPS[_k]['extra_modules'] = PROPS[_k].get('extra_modules', []) + ['Daac.Props.TieLayout', 'Daac.Props.TiePipeline']
+# the char-wise DFS layout loop build_double_array (generated DC.*; tools/dbl2lean.py -> Gen/BuildC.lean), simulation to the
+# model's layoutLoop .charwise + agreement of sort_by with the model's insertByCodeP (Proofs/TieDC.lean, TieDCFail.lean)
+for _k in ('C01', 'C02', 'C03', 'C04', 'C05', 'C07', 'C10', 'C11', 'C13', 'C14', 'C15'):
+    PROPS[_k]['tie_defs'] = PROPS[_k].get('tie_defs', []) + [r'^DC\.']
+    PROPS[_k]['extra_modules'] = PROPS[_k].get('extra_modules', []) + ['Daac.Props.TieLayoutC']
+# code-mapper construction: CodeMapper::new and the frequency-counting loop (generated M.*; tools/map2lean.py)
+for _k in ('C08', 'C14'):
+    PROPS[_k]['tie_defs'] = PROPS[_k].get('tie_defs', []) + [r'^M\.']
+    PROPS[_k]['extra_modules'] = PROPS[_k].get('extra_modules', []) + ['Daac.Props.TieMapper']
+# end-to-end compositions: char-wise pipeline (Props/TiePipelineC) and the translated byte-wise glue (generated TB.*; tools/top2lean.py)
+for _k in ('C01', 'C02', 'C03', 'C04', 'C05', 'C07', 'C08', 'C10', 'C11', 'C13', 'C14', 'C15'):
+    PROPS[_k]['tie_defs'] = PROPS[_k].get('tie_defs', []) + [r'^TB\.']
+    PROPS[_k]['extra_modules'] = PROPS[_k].get('extra_modules', []) + ['Daac.Props.TiePipelineC', 'Daac.Props.TieTop']
+# the translated char-wise glue build_original_nfa_and_mapper / build_with_values (generated TC.*; tools/top2lean.py, profile charwise)
+for _k in ('C01', 'C02', 'C03', 'C04', 'C05', 'C07', 'C08', 'C10', 'C11', 'C13', 'C14', 'C15'):
+    PROPS[_k]['tie_defs'] = PROPS[_k].get('tie_defs', []) + [r'^TC\.']
+    PROPS[_k]['extra_modules'] = PROPS[_k].get('extra_modules', []) + ['Daac.Props.TieTopC']
 for _k, (_s, _r) in _NOTES.items():
     PROPS[_k]['statement'] = _s
     PROPS[_k]['residue'] = _r
